@@ -24,6 +24,12 @@ strings.  Allowed outcomes per entry point, from the documentation:
                runs of in-sequence I PDUs beyond RW, singly and aggregated,
                while the application receives at a generated pace
                                             -> documented results / errors
+  react        a reactive raw NFC-DEP peer reads the DUT's SDREQ transaction
+               ids, CONNECT SAPs and I PDU sequence numbers and answers with
+               frames built from them: doubled / unknown / contradictory
+               SDRES, CC twice, DM after CC, I PDUs with right and wrong
+               N(S)/N(R), ...                -> connect() returns normally,
+               no thread dies, nothing stays blocked
   t3emu        commands into Type3TagEmulation.process_command and through
                connect(card=...)            -> bytes or None, connect returns
 
@@ -718,7 +724,9 @@ def dut_services(llc, sched, notes):
     def listener():
         sk = nfc.llcp.Socket(llc, nfc.llcp.DATA_LINK_CONNECTION)
         sk.setsockopt(nfc.llcp.SO_RCVBUF, 2)
-        sk.bind(16)
+        # the first free address for a named service is 16 (bind(16) itself
+        # is refused with EACCES for anything but a raw access point)
+        sk.bind("urn:nfc:sn:echo")
         sk.listen(2)
         while True:
             c = sk.accept()
@@ -1263,6 +1271,342 @@ def run_overrun(case, ctx):
               "ret": repr(out.get("ret"))})
 
 
+# -------------------------------------------------------------- leg: react
+# A hostile peer that LISTENS: it reads what the device under test sends -
+# the transaction ids of its SDREQs, the SAPs of its CONNECT PDUs, the
+# sequence numbers of its I PDUs - and builds its frames from those values:
+# answers that are right, doubled, contradictory or off by one.  The steps of
+# a case are templates; they are rendered when they are sent.
+REACT_CONNS = ["out", "out", "out", "out0", "in", "snep"]
+
+
+def react_step():
+    conn = st.sampled_from(REACT_CONNS)
+    delta = st.sampled_from([0, 0, 0, 0, 1, 15, 2, 5])
+    tidsel = st.tuples(st.sampled_from(["last", "last", "last", "first",
+                                        "lit"]),
+                       st.sampled_from([0, 0, 0, 0, 1, 255, 7]))
+    sap = st.sampled_from([35, 35, 20, 0, 1, 4, 16, 63, 0x41, 0x60, 255])
+    sdres = st.lists(st.tuples(tidsel, sap).map(
+        lambda t: [t[0][0], t[0][1], t[1]]), min_size=1, max_size=3)
+    sdreq = st.lists(st.tuples(st.integers(0, 255), st.sampled_from([
+        b"urn:nfc:sn:echo", b"urn:nfc:sn:snep", b"urn:nfc:sn:sdp",
+        b"urn:nfc:sn:none", b"", b"x"])).map(list), max_size=2)
+    one = st.one_of(
+        st.tuples(st.just("snl"), sdres, sdreq),
+        st.tuples(st.just("snl"), sdres, st.just([])),
+        st.tuples(st.just("cc"), conn, st.sampled_from([128, 128, 130, 2175]),
+                  st.integers(0, 15)),
+        st.tuples(st.just("cc"), conn, st.just(128), st.just(1)),
+        st.tuples(st.just("dm"), conn, st.sampled_from([0, 1, 2, 3, 0x10,
+                                                        0x20, 0x21, 255])),
+        st.tuples(st.just("disc"), conn),
+        st.tuples(st.just("frmr"), conn, st.integers(0, 15)),
+        st.tuples(st.sampled_from(["rr", "rr", "rnr"]), conn, delta),
+        st.tuples(st.just("i"), conn, delta, delta,
+                  st.sampled_from([0, 1, 2, 5, 128, 129])),
+        st.tuples(st.just("i"), conn, st.just(0), st.just(0),
+                  st.sampled_from([1, 2, 5])),
+        st.tuples(st.just("ui"), conn, st.integers(0, 8)),
+        st.tuples(st.just("connect"), st.sampled_from(["in", "snep", "out"]),
+                  st.sampled_from([128, 2175]), st.integers(0, 15),
+                  st.sampled_from([None, None, b"urn:nfc:sn:echo",
+                                   b"urn:nfc:sn:none"])),
+        st.just(("symm",)))
+    agf = st.lists(one, min_size=2, max_size=4).map(lambda q: ("agf", q))
+    return st.one_of(one, one, one, agf).map(
+        lambda t: [list(x) if isinstance(x, tuple) else x for x in t])
+
+
+@st.composite
+def react_case(draw):
+    steps = draw(st.lists(react_step(), min_size=1, max_size=12))
+    # often the DUT's connection requests are granted first so that the
+    # later templates meet established connections
+    steps = draw(st.sampled_from([[], [], [["cc", "out", 128, 2]], [
+        ["cc", "out0", 128, 1], ["cc", "out", 128, 1]]])) + steps
+    return {"steps": steps,
+            "warmup": draw(st.integers(0, 2)),
+            "repeat": draw(st.sampled_from([0, 0, 1, 2])),
+            "role": draw(st.sampled_from(["target", "target", "initiator"])),
+            "dut_agf": draw(st.booleans()),
+            "miu": draw(st.sampled_from([128, 248, 248, 1024])),
+            "lag": draw(st.sampled_from(LAGS)),
+            "end": draw(st.sampled_from(["disc", "silence"])),
+            "choices": draw(st.lists(st.integers(0, 3), max_size=8)),
+            "seed": draw(st.integers(0, 255))}
+
+
+def react_services(llc, sched, notes):
+    """clients and servers on the device under test whose requests carry the
+    values the peer plays with"""
+    DLC = nfc.llcp.DATA_LINK_CONNECTION
+
+    def guard(fn):
+        def body():
+            try:
+                fn()
+            except nfc.llcp.Error:
+                pass
+        return body
+
+    def talk(sk, dest):
+        try:
+            sk.connect(dest)
+            notes.append("connected")
+            for i in range(3):
+                if not sk.send(b"hi %d" % i):
+                    break
+                if sk.recv() is None:
+                    break
+        finally:
+            sk.close()
+
+    def ldl():
+        sk = nfc.llcp.Socket(llc, nfc.llcp.LOGICAL_DATA_LINK)
+        sk.bind(33)
+        while sk.recvfrom()[0] is not None:
+            pass
+
+    def listener():
+        sk = nfc.llcp.Socket(llc, DLC)
+        sk.setsockopt(nfc.llcp.SO_RCVBUF, 2)
+        sk.bind("urn:nfc:sn:echo")
+        sk.listen(2)
+        while True:
+            c = sk.accept()
+            notes.append("accepted")
+            sched.spawn(guard(lambda c=c: echo(c)), "dut:echo")
+
+    def echo(c):
+        while True:
+            d = c.recv()
+            if d is None:
+                break
+            c.send(d)
+        c.close()
+
+    def connector():
+        sk = nfc.llcp.Socket(llc, DLC)
+        sk.bind(32)
+        talk(sk, 35)
+
+    def connector_by_name():
+        talk(nfc.llcp.Socket(llc, DLC), "urn:nfc:sn:peer-svc")
+
+    def resolver(name):
+        def body():
+            addr = llc.resolve(name)
+            if addr:
+                notes.append("resolved")
+                talk(nfc.llcp.Socket(llc, DLC), addr)
+            # a second lookup of the same name and of another one
+            llc.resolve(name)
+            llc.resolve(name + "-2")
+        return body
+    nfc.snep.SnepServer(llc).start()
+    for fn, name in ((ldl, "ldl"), (listener, "listener"),
+                     (connector, "connector"),
+                     (resolver("urn:nfc:sn:peer"), "resolver-a"),
+                     (resolver("urn:nfc:sn:other"), "resolver-b"),
+                     (connector_by_name, "by-name")):
+        sched.spawn(guard(fn), "dut:" + name)
+
+
+class ReactPeer(object):
+    """what the peer has seen and its own sequence state"""
+
+    def __init__(self):
+        self.tids = []          # transaction ids of the DUT's SDREQs
+        self.conns = []         # (dut sap, my sap) of the DUT's CONNECTs
+        self.vs = {}            # (dut, me) -> my next N(S)
+        self.vr = {}            # (dut, me) -> N(S) I expect next from the DUT
+        self.used = 0           # templates rendered with an observed value
+        self.kinds = set()
+
+    def observe(self, frame):
+        try:
+            p = ref_llcp.decode(bytes(frame))
+        except ref_llcp.RefReject:
+            return
+        for q in p["pdus"] if p["type"] == "AGF" else [p]:
+            if q["type"] == "SNL":
+                self.tids.extend(tid for tid, name in q["sdreq"])
+            elif q["type"] == "CONNECT":
+                me = q["dsap"] if q["dsap"] != 1 else 20
+                self.conns.append((q["ssap"], me))
+            elif q["type"] == "I":
+                self.vr[(q["ssap"], q["dsap"])] = (q["ns"] + 1) % 16
+
+    def pair(self, conn):
+        if conn == "in":
+            return (16, 36)
+        if conn == "snep":
+            return (4, 37)
+        if not self.conns:
+            return (32, 35)
+        self.used += 1
+        self.kinds.add("connect-saps")
+        return self.conns[0] if conn == "out0" else self.conns[-1]
+
+    def render(self, t):
+        k = t[0]
+        if k == "symm":
+            return {"type": "SYMM", "dsap": 0, "ssap": 0}
+        if k == "agf":
+            return {"type": "AGF", "dsap": 0, "ssap": 0,
+                    "pdus": [self.render(q) for q in t[1] if q[0] != "agf"]}
+        if k == "snl":
+            sdres = []
+            for sel, d, sap in t[1]:
+                if sel == "lit" or not self.tids:
+                    tid = d
+                else:
+                    tid = (self.tids[-1] if sel == "last" else self.tids[0])
+                    tid = (tid + d) & 255
+                    self.used += 1
+                    self.kinds.add("sdres-tid")
+                sdres.append([tid, sap])
+            return {"type": "SNL", "dsap": 1, "ssap": 1, "sdres": sdres,
+                    "sdreq": [[tid, bytes(n)] for tid, n in t[2]]}
+        dut, me = self.pair(t[1])
+        p = {"dsap": dut, "ssap": me}
+        if k == "cc":
+            p.update(type="CC", miu=t[2], rw=t[3])
+        elif k == "dm":
+            p.update(type="DM", reason=t[2])
+        elif k == "disc":
+            p.update(type="DISC")
+        elif k == "frmr":
+            p.update(type="FRMR", flags=t[2], ptype=12, ns=0, nr=0, vs=0,
+                     vr=0, vsa=0, vra=0)
+        elif k in ("rr", "rnr"):
+            if (dut, me) in self.vr:
+                self.used += 1
+                self.kinds.add("ack")
+            p.update(type=k.upper(),
+                     nr=(self.vr.get((dut, me), 0) + t[2]) & 15)
+        elif k == "i":
+            vs = self.vs.get((dut, me), 0)
+            if t[2] == 0:
+                self.vs[(dut, me)] = (vs + 1) % 16
+            if (dut, me) in self.vr:
+                self.used += 1
+                self.kinds.add("ack")
+            p.update(type="I", ns=(vs + t[2]) & 15,
+                     nr=(self.vr.get((dut, me), 0) + t[3]) & 15,
+                     data=bytes(i & 0xFF for i in range(t[4])))
+        elif k == "ui":
+            p.update(type="UI", data=b"u" * t[2])
+        elif k == "connect":
+            if t[4]:
+                p["dsap"] = 1
+            p.update(type="CONNECT", miu=t[2], rw=t[3],
+                     sn=bytes(t[4]) if t[4] else None)
+        else:
+            raise ValueError("template %r" % (t,))
+        return p
+
+
+def run_react(case, ctx):
+    s = vsched.Sched(case["choices"], seed=case["seed"], step_budget=400000)
+    vsched.activate(s)
+    air = simdev.Air()
+    dut = simdev.frontend(air, "dut")
+    peer = simdev.frontend(air, "peer")
+    out, notes = {}, []
+    rp = ReactPeer()
+    stats = {"answered": 0, "sent": 0}
+    try:
+        def dut_thread():
+            try:
+                out["ret"] = dut.connect(llcp={
+                    "role": case["role"], "miu": case["miu"], "lto": 100,
+                    "agf": case["dut_agf"], "brs": 0,
+                    "on-connect": lambda llc: react_services(llc, s, notes)
+                    or True})
+            except (vsched.Abort, vsched.StepBudget):
+                raise
+            except BaseException as e:
+                out["exc"] = e
+            out["done"] = True
+
+        def converse(exchange, first=None):
+            if first is not None:
+                rp.observe(first)
+            steps = [["symm"]] * case["warmup"] + list(case["steps"])
+            steps += list(case["steps"]) * case["repeat"]
+            for t in steps + [["symm"]] * 4:
+                if case["lag"]:
+                    s.sleep(case["lag"])
+                used = rp.used
+                frame = ref_llcp.encode(rp.render(t))[:case["miu"] + 3]
+                stats["sent"] += 1
+                r = exchange(frame)
+                if r is None:
+                    return False
+                if rp.used > used:
+                    stats["answered"] += 1
+                rp.observe(r)
+            return True
+
+        def peer_thread():
+            try:
+                if case["role"] == "target":
+                    mac = nfc.dep.Initiator(peer)
+                    if mac.activate(gbi=GB_OK, brs=0, acm=False) is None:
+                        return
+                    if converse(lambda f: mac.exchange(f, 1.0)) and \
+                            case["end"] == "disc":
+                        mac.exchange(b"\x01\x40", 1.0)
+                        mac.deactivate(release=False)
+                else:
+                    mac = nfc.dep.Target(peer)
+                    if mac.activate(timeout=2.0, gbt=GB_OK) is None:
+                        return
+                    first = mac.exchange(None, 1.0)
+                    if first is not None and converse(
+                            lambda f: mac.exchange(f, 1.0), first) and \
+                            case["end"] == "disc":
+                        mac.exchange(b"\x01\x40", 1.0)
+            except nfc.clf.CommunicationError:
+                pass
+        s.spawn(dut_thread, "dut:connect")
+        s.spawn(peer_thread, "peer")
+        s.run_until(lambda: out.get("done"), 60.0)
+        s.sleep(3.0)
+        s.settle()
+        blocked = [repr(t) for t in s.blocked() if t.name.startswith("dut")]
+        alive = [t.name for t in s.alive() if t.name.startswith("dut")
+                 or t.name.startswith("urn:")]
+        failures = [(n, e) for n, e in s.failures()]
+        deadlock = s.deadlock
+    except vsched.StepBudget:
+        raise Violation("livelock", "step budget exhausted")
+    finally:
+        s.shutdown()
+        vsched.activate(None)
+    ctx.set_class("react")
+    if "exc" in out:
+        raise unexpected(out["exc"], "connect-raises")
+    for n, e in failures:
+        if n != "peer":
+            raise unexpected(e, "thread-died", detail=n)
+        raise e     # the harness' own peer must not fail
+    if not out.get("done"):
+        raise Violation("connect-did-not-return",
+                        "blocked %r deadlock %r" % (blocked, deadlock))
+    if alive:
+        raise Violation("thread-left-blocked", "%r %r" % (alive, blocked))
+    for k in sorted(rp.kinds):
+        ctx.label("uses:" + k)
+    if stats["answered"]:
+        ctx.nontrivial()
+    ctx.note({"frames": stats["sent"], "reactive_answered": stats["answered"],
+              "tids_seen": rp.tids[:4], "connects_seen": rp.conns[:4],
+              "notes": notes[:6], "ret": repr(out.get("ret"))})
+
+
 # --------------------------------------------------------------- leg: card
 class ReaderDev(ScriptDev):
     def __init__(self, first, frames):
@@ -1387,6 +1731,27 @@ LEGS = [
              "connecting/established, SNEP server, SDP), aggregated, mutated "
              "or random - into a running connect(llcp=...); non-trivial = at "
              "least two frames were answered."),
+    Leg("react", run=run_react, gen=lambda tier: react_case(), quick=500,
+        thorough=20000, shards_quick=8, shards_thorough=16, nt_floor=0.3,
+        rule="a reactive raw NFC-DEP peer (initiator or target) against a "
+             "running connect(llcp=...) whose applications look up two "
+             "service names (and connect to what was resolved), connect by "
+             "SAP and by name, listen and echo.  The peer reads the DUT's "
+             "frames and plays 1..12 generated templates (optionally after "
+             "granting the DUT's connection requests; whole list repeated up "
+             "to twice) rendered from what it has seen: SNL with "
+             "1..3 SDRES for the last/first transaction id seen +0/+1/-1 "
+             "(the same id twice in one frame and across frames, ids never "
+             "asked) and SDREQs, CC / DM / DISC / FRMR / RR / RNR / I / UI / "
+             "CONNECT on the connection the DUT opened (SAPs from its "
+             "CONNECT; "
+             "N(S), N(R) from its own counters and the DUT's I PDUs, right or "
+             "off by 1, 2, 5, -1) or on connections to the DUT's listener and "
+             "SNEP server, singly or 2..4 in one AGF; ends with DISC or "
+             "silence; generated schedule choices and exchange latency.  "
+             "non-trivial = at least one frame rendered from an observed "
+             "value (transaction id, CONNECT SAPs, sequence number) was "
+             "answered by the DUT."),
     Leg("overrun", run=run_overrun, gen=lambda tier: overrun_case(),
         quick=600, thorough=20000, shards_quick=8, shards_thorough=16,
         nt_floor=0.2,
